@@ -23,6 +23,14 @@ structure Res where
   props   : List (String × String) := []
   stats   : List String := []
 
+/-- `dijconc` blocks: searches of private graphs by several goroutines at once; the harness compares each with the
+sequential search of the same graph (which the `dij` family replays against the model) -/
+def runDijConc (b : Block) : Res :=
+  let v := ((field b "conc").getD []).headD "skip"
+  let p := if v = "consistent" ∨ v = "skip" then none else some s!"a_search_running_next_to_others_returned_something_else_than_alone:{v}"
+  { conform := none, prop := p, props := [("C12", match p with | none => "ok" | some m => "FAIL:" ++ m)],
+    stats := ["small=true", "n=8", "m=0", "reach=0"] }
+
 def Res.line (kind id pid : String) (r : Res) : String :=
   let c := match r.conform with | none => "ok" | some m => "DIVERGE:" ++ m
   let p := if r.propNA then "na" else match r.prop with | none => "ok" | some m => "FAIL:" ++ m
